@@ -114,48 +114,56 @@ Definition too_many (a b : list str) : bool := len a + len b >? max_set_matches.
 Definition range_runes (lo hi : Z) : list Z :=
   map (fun k => lo + Z.of_nat k) (seq 0 (Z.to_nat (hi - lo + 1))).
 
+Section FsmLoops.
+Variable f : re -> str -> list str * bool.   (* findSetMatchesInternal on sub-expressions *)
+
+(* findSetMatchesFromAlternate *)
+Fixpoint alt_loop (l : list re) (base : str) (first : bool) (acc : list str) (cs : bool)
+  : list str * bool :=
+  match l with
+  | [] => (acc, cs)
+  | x :: t =>
+      let '(found, c) := f x base in
+      if isnil found then ([], false)
+      else if too_many acc found then ([], false)
+      else let cs' := if first then c else cs in
+           if negb (Bool.eqb cs' c) then ([], false)
+           else alt_loop t base false (acc ++ found) cs'
+  end.
+
+(* findSetMatchesFromConcat: the loop over the current matches for sub-expression x *)
+Fixpoint inner_loop (x : re) (i0 : bool) (bs : list str) (j0 : bool) (nm : list str) (mcs : bool)
+  : option (list str * bool) :=
+  match bs with
+  | [] => Some (nm, mcs)
+  | b :: bs' =>
+      let '(m, c) := f x b in
+      if isnil m then None
+      else if too_many nm m then None
+      else let mcs' := if i0 && j0 then c else mcs in
+           if negb (Bool.eqb mcs' c) then None
+           else inner_loop x i0 bs' false (nm ++ m) mcs'
+  end.
+
+Fixpoint cat_loop (l : list re) (i0 : bool) (matches : list str) (mcs : bool) : list str * bool :=
+  match l with
+  | [] => (matches, mcs)
+  | x :: t =>
+      match inner_loop x i0 matches true [] mcs with
+      | None => ([], false)
+      | Some (nm, mcs') => cat_loop t false nm mcs'
+      end
+  end.
+End FsmLoops.
+
 Fixpoint fsm (r : re) (base : str) {struct r} : list str * bool :=
   match r with
   | RBeginText | REndText => ([], false)
   | RLit f rs => ([base ++ rs], negb f)
   | REmpty f => if isnil base then ([], false) else ([base], negb f)
-  | RAlt l =>
-      (fix alt (l : list re) (first : bool) (acc : list str) (cs : bool) : list str * bool :=
-         match l with
-         | [] => (acc, cs)
-         | x :: t =>
-             let '(found, c) := fsm x base in
-             if isnil found then ([], false)
-             else if too_many acc found then ([], false)
-             else let cs' := if first then c else cs in
-                  if negb (Bool.eqb cs' c) then ([], false)
-                  else alt t false (acc ++ found) cs'
-         end) l true [] false
+  | RAlt l => alt_loop fsm l base true [] false
   | RCapture x => fsm x base
-  | RConcat l =>
-      if isnil l then ([], false)
-      else
-      (fix cat (l : list re) (i0 : bool) (matches : list str) (mcs : bool) : list str * bool :=
-         match l with
-         | [] => (matches, mcs)
-         | x :: t =>
-             (* inner loop over the current matches *)
-             match (fix inner (bs : list str) (j0 : bool) (nm : list str) (mcs : bool)
-                      : option (list str * bool) :=
-                      match bs with
-                      | [] => Some (nm, mcs)
-                      | b :: bs' =>
-                          let '(m, c) := fsm x b in
-                          if isnil m then None
-                          else if too_many nm m then None
-                          else let mcs' := if i0 && j0 then c else mcs in
-                               if negb (Bool.eqb mcs' c) then None
-                               else inner bs' false (nm ++ m) mcs'
-                      end) matches true [] mcs with
-             | None => ([], false)
-             | Some (nm, mcs') => cat t false nm mcs'
-             end
-         end) l true [base] false
+  | RConcat l => if isnil l then ([], false) else cat_loop fsm l true [base] false
   | RClass f rg =>
       let total := fold_left (fun a p => a + (snd p - fst p) + 1) rg 0 in
       if total >? max_set_matches then ([], false)
@@ -306,14 +314,12 @@ Fixpoint smi (r : re) : option sm :=
   | REmpty _ => Some SEmpty
   | RLit f rs => Some (SEqual rs (negb f))
   | RAlt l =>
-      match all_some ((fix go (l : list re) : list (option sm) :=
-                         match l with [] => [] | x :: t => smi x :: go t end) l) with
+      match all_some (map smi l) with
       | Some ms => Some (SOr ms)
       | None => None
       end
   | RConcat l =>
-      concat_logic ((fix go (l : list re) : list (re * option sm) :=
-                       match l with [] => [] | x :: t => (strip x, smi x) :: go t end) l)
+      concat_logic (map (fun x => (strip x, smi x)) l)
   | _ => None
   end.
 
@@ -325,13 +331,9 @@ Definition is_leq (l : leaf) : bool := match l with LEq _ _ => true | _ => false
 (* findEqualOrPrefixStringMatchers: Some leaves iff it returns true (m an element of an or) *)
 Fixpoint leaves (m : sm) : option (list leaf) :=
   match m with
-  | SOr l => (fix go (l : list sm) : option (list leaf) :=
-                match l with
-                | [] => Some []
-                | x :: t => match leaves x, go t with
-                            | Some a, Some b => Some (a ++ b)
-                            | _, _ => None end
-                end) l
+  | SOr l => match all_some (map leaves l) with
+             | Some ls => Some (concat ls)
+             | None => None end
   | SEqual s cs => Some [LEq s cs]
   | SPrefix cs p _ => Some [LPre p cs m]
   | _ => None
@@ -444,8 +446,7 @@ Fixpoint smm (m : sm) (s : str) {struct m} : bool :=
   match m with
   | SEqual v cs => if cs then str_eqb v s else equal_fold v s
   | SEmpty => isnil s
-  | SOr l => (fix go (l : list sm) : bool :=
-                match l with [] => false | x :: t => smm x s || go t end) l
+  | SOr l => existsb (fun x => smm x s) l
   | SContains lft subs rgt =>
       match lft, rgt with
       | Some lf, Some rt => existsb (fun sub => contains_lr (smm lf) (smm rt) sub [] s) subs
@@ -477,15 +478,10 @@ Fixpoint smm (m : sm) (s : str) {struct m} : bool :=
           if (0 <? minp) && (minp <=? blen s) then
             let k := firstn (Z.to_nat minp) (enc s) in
             let k := if cs then k else norm_lower k in
-            (fix find (ps : list (bytes * list sm)) : bool :=
-               match ps with
-               | [] => false
-               | (k', ms) :: t =>
-                   if str_eqb k' k
-                   then (fix go (ms : list sm) : bool :=
-                           match ms with [] => false | x :: t' => smm x s || go t' end) ms
-                   else find t
-               end) pres
+            (* map lookup (keys are unique) and the loop over the matchers stored there *)
+            existsb (fun p => match p with
+                              | (k', ms) => str_eqb k' k && existsb (fun x => smm x s) ms
+                              end) pres
           else false
       end
   end.
